@@ -18,7 +18,9 @@ RULE = (
     "escapes); (iii) malformed families (bad octal digits, '', unterminated character constant, escape outside the lenient set, "
     "comment openers) invoke the error callback. Through the parser: Constant.value is the spelling, Constant.type the type the "
     "suffix/prefix implies (multi-character constants: int). Hypothesis adds long literals from the 6.4.4/6.4.5 grammar and their "
-    "single-character corruptions. Non-trivial: strings that are literals under one reading or fall in a malformed family; "
+    "single-character corruptions. Every accepted non-string literal is also parsed in 6 other positions and in 4 positions the parser "
+    "reads twice (inside the type name of a compound literal); Hypothesis-generated runs of 1-4 adjacent string literals of one "
+    "prefix family in 13 positions must give one Constant spelling prefix + all bodies in order. Non-trivial: strings that are literals under one reading or fall in a malformed family; "
     "distinct by construction."
 )
 ASSUMPTIONS = ["strict/lenient literal grammars of vlib/reflex.py; where the two readings disagree on the class ('\\08') either is accepted"]
@@ -47,6 +49,79 @@ CONTEXTS = [
     ("struct B { int w : %s; };", ("ext", 0, "type", "decls", 0, "bitsize")),
     ("void f(int p[static %s]);", ("ext", 0, "type", "args", "params", 0, "type", "dim")),
 ]
+
+
+# positions the parser reads twice (a parenthesised type name followed by '{' is
+# parsed speculatively, then again as a compound literal): the literal must come
+# out the same.  %s is the only constant of each text.
+TWICE_PARSED = [
+    "void f(void){ (char[sizeof(%s)]){x}; }",
+    "int n = sizeof (char[sizeof %s]){x};",
+    "void f(void){ (struct { int m : %s; }){x}; }",
+    "void f(void){ g((int[%s]){x}, (T)y); }",
+]
+STRING_POSITIONS = [
+    "char *s = %s;",
+    "void f(void){ g(%s); }",
+    "int n = sizeof(%s);",
+    "int n = sizeof %s;",
+    "_Static_assert(x, %s);",
+    "struct Q { int m; _Static_assert(x, %s); };",
+    "void f(void){ (struct { int m; _Static_assert(x, %s); }){x}; }",
+    "void f(void){ y = (int(*)[sizeof(%s)])p; }",
+    "void f(void){ y = %s[x]; }",
+] + TWICE_PARSED
+STRING_BODIES = ["", "a", "ab", "cd", "%d", "\\n", "\\\\", "\\\"", "\\x41", "\\101", "a b", "/*", "//", "'", "?", "\\0", "C:\\\\dir"]
+STRING_PREFIXES = ["", "L", "u8", "u", "U"]
+
+
+def constants_of(ast):
+    out = []
+    stack = [ast]
+    while stack:
+        n = stack.pop()
+        if isinstance(n, c_ast.Constant):
+            out.append((n.type, n.value))
+        if isinstance(n, c_ast.Node):
+            for s_ in n.__slots__:
+                if s_ not in ("coord", "__weakref__"):
+                    stack.append(getattr(n, s_))
+        elif isinstance(n, (list, tuple)):
+            stack.extend(n)
+    return out
+
+
+def concat_shard(arg):
+    """Adjacent string literals of one prefix family become ONE Constant whose
+    spelling is the first literal's prefix and quote, all bodies in order, and the
+    closing quote - wherever the sequence stands."""
+    seed, n = arg
+    st = Stats()
+
+    def body(c):
+        pre = c.choice(STRING_PREFIXES)
+        k = c.int(1, 4)
+        bodies = [c.choice(STRING_BODIES) for _ in range(k)]
+        lits = ['%s"%s"' % (pre, b) for b in bodies]
+        seq = c.choice([" ", "", "\n", "  "]).join(lits) if k > 1 else lits[0]
+        tmpl = c.choice(STRING_POSITIONS)
+        src = "typedef int T; " + tmpl % seq
+        st.evaluations += 1
+        case = ("concat", src)
+        want = '%s"%s"' % (pre, "".join(bodies))
+        try:
+            ast = c_parser.CParser().parse(src, "f.c")
+        except Exception as e:  # noqa: BLE001
+            fail("constant-node", case, src, "adjacent string literals rejected: %s: %s" % (type(e).__name__, e), "parser-rejects-concat")
+        got = constants_of(ast)
+        if got != [("string", want)]:
+            fail("constant-node", case, src, "Constant nodes %r, the literals spell (%r, %r)" % (got[:3], "string", want), "concat-value")
+        if k > 1:
+            st.nt(src)
+        st.classes["concat_in_twice_parsed_position" if tmpl in TWICE_PARSED else "concat_elsewhere"] += 1
+
+    hyp_search(body, seed, n, st)
+    return st
 
 
 def lex(s):
@@ -151,6 +226,14 @@ def check_string(s, st, via_parser=True):
                     n2 = n2[p_] if isinstance(p_, int) else getattr(n2, p_)
                 if not isinstance(n2, c_ast.Constant) or n2.value != s or n2.type != want:
                     fail("constant-node", case, s, "in %r the Constant is (%r, %r), the spelling implies (%r, %r)" % (tmpl % s, getattr(n2, "type", None), getattr(n2, "value", None), want, s), "constant-type-context")
+        for tmpl in TWICE_PARSED:
+            try:
+                a2 = c_parser.CParser().parse("typedef int T; " + tmpl % s, "f.c")
+            except Exception as e:  # noqa: BLE001
+                fail("constant-node", case, s, "accepted literal rejected in %r: %s" % (tmpl % s, e), "parser-rejects")
+            got2 = constants_of(a2)
+            if got2 != [(want, s)]:
+                fail("constant-node", case, s, "in %r the Constant nodes are %r, the spelling implies %r" % (tmpl % s, got2[:3], (want, s)), "constant-type-context")
     return nontrivial
 
 
@@ -255,9 +338,21 @@ def run(ctx):
     jobs.sort(key=lambda j: -j[1])
     ctx.map(enum_shard, jobs)
     ctx.map(random_shard, [(s, ctx.pick(2000, 40000)) for s in ctx.shard_seeds(16)])
+    ctx.map(concat_shard, [(s, ctx.pick(400, 8000)) for s in ctx.shard_seeds(16, 5)])
     ctx.exhaustive = True
     ctx.extra["exhaustive_bounds"] = "all strings of length <= %d over the integer (%d chars), floating (%d) and character/string (%d) alphabets" % (n, len(ALPH_INT), len(ALPH_FLT), len(ALPH_CHR))
 
 
 def replay(subcheck, case):
+    if isinstance(case, tuple) and case[0] == "concat":
+        src = case[1]
+        ast = c_parser.CParser().parse(src, "f.c")
+        # the expected spelling from the text itself: the reference tokenizer's string tokens
+        toks = [t for t in reflex.pp_tokens(src) if t.endswith('"') and len(t) >= 2]
+        pre = toks[0][: toks[0].index('"')]
+        want = pre + '"' + "".join(t[t.index('"') + 1 : -1] for t in toks) + '"'
+        got = constants_of(ast)
+        if got != [("string", want)]:
+            fail("constant-node", case, src, "Constant nodes %r, the literals spell %r" % (got[:3], want), "concat-value")
+        return
     check_string(case, Stats())
